@@ -1,7 +1,7 @@
 (* C11 — closing a writer finalises the file exactly once, however close is reached (VbsWriter part;
    the IpmWriter part composes this with the message encoder, see C06). *)
 From Coq Require Import List Arith NArith.
-Require Import CU.model.Prim CU.model.Block CU.model.Vbs CU.spec.FramingSpec CU.proofs.BlockProofs CU.proofs.VbsProofs.
+Require Import CU.model.Prim CU.model.Block CU.model.Vbs CU.spec.FramingSpec CU.proofs.BlockProofs CU.proofs.VbsProofs CU.proofs.VbsTouch.
 Import ListNotations.
 
 Section C11.
@@ -21,11 +21,28 @@ Proof. exact (c11_any_finalisation_history B). Qed.
 Theorem C11_reads_back : forall blocked rs fins, fins <> [] -> Forall is_fin fins -> Forall (wf_rec maxlen) rs ->
   read_all B maxlen (file_of (writer_run B blocked (map WWrite rs ++ fins))) blocked = Ok (rs, End).
 Proof. exact (c11_reads_back B Bpos maxlen maxlen_ok). Qed.
+
+(* the caller may also use the wrapped file object between finalisations (seek it, read from it: W2Touch p puts its
+   position at p without the writer knowing).  After the records and a first finalisation, ANY mix of further
+   close() / exit calls and such position moves leaves the file a single close() leaves: a later finalisation
+   writes nothing, wherever the stream then stands *)
+Theorem C11_touched_history : forall blocked rs fin0 ops,
+  is_fin fin0 -> Forall (later_op) ops ->
+  file_of (writer_run2 B blocked (map W2Op (map WWrite rs ++ [fin0]) ++ ops))
+  = file_of (writer_run B blocked (map WWrite rs ++ [WClose])).
+Proof. exact (c11_touched_history B). Qed.
 End C11.
 
 Print Assumptions C11_any_finalisation_history.
 Print Assumptions C11_reads_back.
+Print Assumptions C11_touched_history.
 
 Example C11_example :
   file_of (writer_run 3 false [WWrite [x01]; WClose; WExit; WClose]) = [x00; x00; x00; x01; x01; x00; x00; x00; x00].
+Proof. vm_compute. reflexivity. Qed.
+
+(* blocked, B = 3: close, the caller seeks to offset 5, a `with` exit, a seek to 0, another close *)
+Example C11_example_touched :
+  file_of (writer_run2 3 true [W2Op (WWrite [x01]); W2Op WClose; W2Touch 5; W2Op WExit; W2Touch 0; W2Op WClose])
+  = file_of (writer_run 3 true [WWrite [x01]; WClose]).
 Proof. vm_compute. reflexivity. Qed.
